@@ -107,6 +107,11 @@ mod const_ctor {
     #[modulus = "15607574404979845937917304625365064124764384391529980546483844877222997344265551502073280314968488765988184181959992061658162094952240624496294395662048868694531100322534394721257671067411336082363692300163844635634469121835869847533765175908934031673"]
     #[generator = "5"]
     pub struct K12;
+    // P-256: a modulus with an all-zero limb
+    #[derive(MontConfig)]
+    #[modulus = "115792089210356248762697446949407573530086143415290314195533631308867097853951"]
+    #[generator = "6"]
+    pub struct K13;
 
     pub fn run() -> ! {
         use monitor::*;
@@ -126,6 +131,7 @@ mod const_ctor {
         fadapt::mk(PhantomData::<Fp<MontBackend<K10, 6>, 6>>, "probe/r6_full", false),
         fadapt::mk(PhantomData::<Fp<MontBackend<K11, 9>, 9>>, "probe/m521", false),
         fadapt::mk(PhantomData::<Fp<MontBackend<K12, 13>, 13>>, "probe/r13_full", false),
+        fadapt::mk(PhantomData::<Fp<MontBackend<K13, 4>, 4>>, "probe/p256 (zero limb in the modulus)", false),
         ];
         let items: Vec<Item> = cfgs
             .into_iter()
@@ -267,7 +273,25 @@ mod derive_small_subgroup {
     }
 }
 
+// ---- classes that must NOT compile: out-of-range and negative big-integer literals are documented compile errors
+#[cfg(feature = "reject_bigint_negative")]
+const REJ1: BigInt<1> = ark_ff::BigInt!("-1");
+#[cfg(feature = "reject_bigint_too_wide")]
+const REJ2: BigInt<1> = ark_ff::BigInt!("18446744073709551616");
+#[cfg(feature = "reject_montfp_too_wide")]
+const REJ3: F1 = MontFp!("18446744073709551616");
+#[cfg(feature = "reject_montfp_too_wide_negative")]
+const REJ4: F4 = MontFp!("-0x10000000000000000000000000000000000000000000000000000000000000005");
+
 fn main() {
+    #[cfg(feature = "reject_bigint_negative")]
+    println!("ACCEPTED BigInt!(\"-1\") = {}", REJ1);
+    #[cfg(feature = "reject_bigint_too_wide")]
+    println!("ACCEPTED BigInt<1> literal 2^64 = {}", REJ2);
+    #[cfg(feature = "reject_montfp_too_wide")]
+    println!("ACCEPTED one-limb MontFp!(2^64) = {}", REJ3);
+    #[cfg(feature = "reject_montfp_too_wide_negative")]
+    println!("ACCEPTED four-limb MontFp!(-(2^256+5)) = {}", REJ4);
     #[cfg(feature = "const_ctor")]
     const_ctor::run();
     #[allow(unused_mut)]
